@@ -7,6 +7,7 @@ package main
 import (
 	"fmt"
 	"go/types"
+	"os"
 	"reflect"
 	"sort"
 	"strings"
@@ -29,7 +30,7 @@ var initAllowList = map[string]bool{
 	"database/sql/driver": true, "encoding/hex": true, "encoding/base64": true, "bufio": true,
 	"golang.org/x/mod/semver": true, "text/template/parse": false, "hash": true, "iter": true,
 	"container/list": true, "encoding": true, "html": false, "internal/itoa": true, "internal/stringslite": true,
-	"internal/bytealg": false, "internal/byteorder": true, "database/sql": false, "time": false, "context": false,
+	"internal/bytealg": false, "internal/oserror": true, "internal/cpu": true, "internal/byteorder": true, "database/sql": false, "time": false, "context": false,
 }
 
 func initAllowed(path string) bool {
@@ -715,5 +716,30 @@ func init() {
 	intrinsics["internal/reflectlite.TypeOf"] = func(fr *frame, fn *ssa.Function, a []value) value {
 		x := &rlType{}
 		return iface{t: fr.i.typeOfHost(reflect.TypeOf(x)), v: native{x}}
+	}
+}
+
+func init() {
+	bin := func(op func(f *TermFactory, x, y *Term) *Term) intrinsic {
+		return func(fr *frame, fn *ssa.Function, a []value) value {
+			f := fr.f()
+			x, _, _ := termOf(f, a[0])
+			y, _, _ := termOf(f, a[1])
+			return mkScalar(op(f, x, y), types.Bool)
+		}
+	}
+	verifRT["verifAnd"] = bin(func(f *TermFactory, x, y *Term) *Term { return f.And(x, y) })
+	verifRT["verifOr"] = bin(func(f *TermFactory, x, y *Term) *Term { return f.Or(x, y) })
+	verifRT["verifImplies"] = bin(func(f *TermFactory, x, y *Term) *Term { return f.Implies(x, y) })
+}
+
+func init() {
+	verifRT["verifKnown"] = func(fr *frame, fn *ssa.Function, a []value) value {
+		for _, k := range strings.Split(os.Getenv("VERIF_KNOWN"), ",") {
+			if k == a[0].(string) {
+				return true
+			}
+		}
+		return false
 	}
 }
